@@ -19,6 +19,9 @@ func (c *fnCtx) call(v *ast.CallExpr, pre *[]fnBind, want []string) ([]string, [
 	if fv, m := c.objCallOf(v); fv != nil {
 		return c.objCall(fv, m, v, pre, want)
 	}
+	if key := c.externKey(v); key != "" {
+		return c.externCall(key, v, pre)
+	}
 	switch f := v.Fun.(type) {
 	case *ast.Ident:
 		if f.Obj == nil { // builtin or conversion
@@ -178,6 +181,15 @@ func (c *fnCtx) callValue(x *fnVar, v *ast.CallExpr, pre *[]fnBind) ([]string, [
 		c.noAlias(a, yt)
 		s += " " + paren(y)
 	}
+	if x.typ.monadic {
+		// a callback that can panic (it receives function literals): called through the res monad
+		var ts []string
+		for range x.typ.res {
+			ts = append(ts, c.tmp())
+		}
+		*pre = append(*pre, fnBind{pat: tuple(ts), m: tRaw{s}})
+		return ts, x.typ.res
+	}
 	if len(x.typ.res) == 1 {
 		return []string{"(" + s + ")"}, x.typ.res
 	}
@@ -299,6 +311,16 @@ func (c *fnCtx) callTranslated(cal *fnFunc, v *ast.CallExpr, pre *[]fnBind, want
 			}
 			continue
 		}
+		if p.v.typ.k == "func" {
+			s += " " + c.funcArg(a, p.v.typ, pre)
+			continue
+		}
+		if se, isSl := a.(*ast.SliceExpr); isSl && p.v.typ.k == "slice" {
+			// the callee neither stores into this parameter nor hands it back: by value
+			y, _ := c.sliceByValue(se, pre)
+			s += " " + y
+			continue
+		}
 		y, yt := c.expr(a, pre)
 		if yt.k == "view" {
 			c.lostAt(a, "slice argument %s (elements needed)", src(a))
@@ -312,6 +334,20 @@ func (c *fnCtx) callTranslated(cal *fnFunc, v *ast.CallExpr, pre *[]fnBind, want
 			// the equality of the callee's key type, at the type it is called with
 			kt := substT(&fnType{k: "elem", name: strings.TrimPrefix(e.key, "eqb:")}, sub)
 			s += " " + c.mapEqb(&fnType{k: "map", key: kt}, v)
+			continue
+		}
+		if strings.HasPrefix(e.key, "cmp:") {
+			kt := substT(&fnType{k: "elem", name: strings.TrimPrefix(e.key, "cmp:"), ordered: true}, sub)
+			switch {
+			case kt.isNum():
+				s += " go_cmp_int"
+			case kt.k == "string":
+				s += " go_cmp_str"
+			case kt.k == "elem":
+				s += " " + c.cmpVar(&fnType{k: "elem", name: kt.name, ordered: true}).name
+			default:
+				c.lostAt(v, "call of %s (cmp.Compare at type %s)", cal.name, kt.k)
+			}
 			continue
 		}
 		if strings.HasPrefix(e.key, "ord:") && len(sub) > 0 {
@@ -447,6 +483,8 @@ func hasAbrupt(n ast.Node) bool {
 				return false
 			}
 			switch v := x.(type) {
+			case *ast.FuncLit:
+				return false // its returns are its own
 			case *ast.ReturnStmt:
 				found = true
 			case *ast.BranchStmt:
@@ -474,6 +512,9 @@ func hasAbrupt(n ast.Node) bool {
 func hasReturn(n ast.Node) bool {
 	found := false
 	ast.Inspect(n, func(x ast.Node) bool {
+		if _, ok := x.(*ast.FuncLit); ok {
+			return false // its returns are its own
+		}
 		if _, ok := x.(*ast.ReturnStmt); ok {
 			found = true
 		}
@@ -645,6 +686,9 @@ func (c *fnCtx) stmt(s ast.Stmt, k func() term) term {
 		}
 		return wrap(pre, k())
 	case *ast.ReturnStmt:
+		if c.lit != nil {
+			return c.litReturn(v)
+		}
 		var pre []fnBind
 		var vals []string
 		res := c.fn.results
@@ -679,6 +723,10 @@ func (c *fnCtx) stmt(s ast.Stmt, k func() term) term {
 		for i, r := range v.Results {
 			if res[i].k == "view" {
 				vals = append(vals, c.viewOf(r, &pre))
+				continue
+			}
+			if res[i].k == "sres" {
+				vals = append(vals, c.sresValue(r, &pre))
 				continue
 			}
 			x, t := c.expr(r, &pre)
@@ -1335,8 +1383,15 @@ func (c *fnCtx) rangeStmt(v *ast.RangeStmt, k func() term) term {
 	var pre []fnBind
 	ls := &loopSpec{node: v, body: v.Body}
 	// the counter
-	var key *fnVar
-	if id, ok := v.Key.(*ast.Ident); ok && id.Name != "_" {
+	var key, userKey *fnVar
+	if id, ok := v.Key.(*ast.Ident); ok && id.Name != "_" && id.Obj != nil && assignsObj(v.Body, id.Obj) {
+		// the body assigns the range variable (i++): every iteration has its own copy, set from a
+		// hidden counter the body cannot reach
+		userKey = c.declare(id, tyInt)
+		userKey.pos = v.Pos()
+		ls.iterLoc = append(ls.iterLoc, userKey)
+		key = c.rangeCounter(v)
+	} else if id, ok := v.Key.(*ast.Ident); ok && id.Name != "_" {
 		key = c.declare(id, tyInt)
 	} else {
 		if v.Key != nil {
@@ -1391,6 +1446,9 @@ func (c *fnCtx) rangeStmt(v *ast.RangeStmt, k func() term) term {
 			ls.bodyPre = func() []fnBind {
 				return []fnBind{{pat: val.name, m: tRaw{"go_get " + xv.name + " " + key.name}}}
 			}
+			if userKey != nil {
+				c.lostAt(v, "range with a value variable whose body assigns the index variable")
+			}
 			ls.extraR = append(ls.extraR, xv)
 		} else if v.Value != nil {
 			if id, ok := v.Value.(*ast.Ident); !ok || id.Name != "_" {
@@ -1399,6 +1457,9 @@ func (c *fnCtx) rangeStmt(v *ast.RangeStmt, k func() term) term {
 		}
 	default:
 		c.lostAt(v, "range over %s", src(v.X))
+	}
+	if userKey != nil {
+		ls.bodyPre = func() []fnBind { return []fnBind{{pat: userKey.name, e: key.name, isLet: true}} }
 	}
 	pre = append(pre, fnBind{pat: key.name, e: "0", isLet: true})
 	ls.cond = func(pre *[]fnBind) string { return "(" + key.name + " <? " + lim.name + ")" }
